@@ -4,13 +4,11 @@ import CalicoVerif.Proofs.C30Addr
 namespace CalicoVerif.C30
 
 /-- What the flattener may assume about a rule of a tier built by GetPolicySetRules for direction
-`d`: same direction, IPv4 addresses, and — the restriction under which flattening is proved correct —
-a `pass` rule carries no port criteria. -/
+`d`: same direction and IPv4 addresses. -/
 structure RuleOK (d : Bool) (h : HRule) : Prop where
   dir : h.inbound = d
   v4l : ∀ a ∈ h.lAddrs, a.v6 = false
   v4r : ∀ a ∈ h.rAddrs, a.v6 = false
-  passPortFree : h.action = .pass → h.lPorts = [] ∧ h.rPorts = []
 
 def TierOK (d : Bool) (t : List HRule) : Prop := ∀ h ∈ t, RuleOK d h
 
@@ -61,6 +59,146 @@ theorem combineCIDRs_sem (a b : List Addr) (ha : ∀ x ∈ a, x.v6 = false) (hb 
 
 theorem combinePorts_nil (b : List PortRange) : combinePorts [] b = some b := by simp [combinePorts]
 
+/-! ### combinePorts (repaired) computes the intersection -/
+
+theorem foldl_maxPort_ge (l : List PortRange) : ∀ m : Nat,
+    m ≤ l.foldl (fun m r => if r.valid then max m r.last else m) m ∧
+    ∀ r ∈ l, r.first ≤ r.last → r.last ≤ l.foldl (fun m r => if r.valid then max m r.last else m) m := by
+  induction l with
+  | nil => intro m; simp
+  | cons a rest ih =>
+    intro m
+    simp only [List.foldl_cons]
+    have := ih (if a.valid then max m a.last else m)
+    have hm : m ≤ (if a.valid then max m a.last else m) := by split <;> omega
+    refine ⟨by omega, ?_⟩
+    intro r hr hv
+    simp only [List.mem_cons] at hr
+    rcases hr with rfl | hr
+    · have : r.valid = true := by simpa [PortRange.valid] using hv
+      simp only [this, if_true] at *
+      omega
+    · exact this.2 r hr hv
+
+theorem inPorts_le_max (l : List PortRange) (x : Nat) (h : inPorts l x = true) : x ≤ maxPort l := by
+  obtain ⟨r, hr, hc⟩ := List.any_eq_true.1 h
+  simp only [PortRange.contains, Bool.and_eq_true, decide_eq_true_eq] at hc
+  have := (foldl_maxPort_ge l 0).2 r hr (by omega)
+  unfold maxPort; omega
+
+theorem runsGo_any (x : Nat) (rest : List Nat) : ∀ (f l : Nat), f ≤ l → (∀ y ∈ rest, l < y) →
+    rest.Pairwise (· < ·) →
+    ((runsGo f l rest).any (fun r => r.contains x) = true ↔ ((f ≤ x ∧ x ≤ l) ∨ x ∈ rest)) := by
+  induction rest with
+  | nil => intro f l _ _ _; simp [runsGo, PortRange.contains]
+  | cons n rest ih =>
+    intro f l hfl hgt hs
+    have hln := hgt n (by simp)
+    have hs' := List.pairwise_cons.1 hs
+    by_cases hn : n = l + 1
+    · simp only [runsGo, hn, if_true, List.mem_cons]
+      rw [ih f (l + 1) (by omega) (fun y hy => by have := hs'.1 y hy; omega) hs'.2]
+      constructor
+      · rintro (h | h)
+        · by_cases hx : x = l + 1
+          · exact Or.inr (Or.inl hx)
+          · exact Or.inl ⟨h.1, by omega⟩
+        · exact Or.inr (Or.inr h)
+      · rintro (h | h | h)
+        · exact Or.inl ⟨h.1, by omega⟩
+        · exact Or.inl ⟨by omega, by omega⟩
+        · exact Or.inr h
+    · simp only [runsGo, hn, if_false, List.any_cons, Bool.or_eq_true, List.mem_cons]
+      rw [ih n n (Nat.le_refl n) hs'.1 hs'.2]
+      simp only [PortRange.contains, Bool.and_eq_true, decide_eq_true_eq]
+      constructor
+      · rintro (h | h | h)
+        · exact Or.inl h
+        · exact Or.inr (Or.inl (by omega))
+        · exact Or.inr (Or.inr h)
+      · rintro (h | h | h)
+        · exact Or.inl h
+        · exact Or.inr (Or.inl (by omega))
+        · exact Or.inr (Or.inr h)
+
+theorem runs_any (x : Nat) (l : List Nat) (hs : l.Pairwise (· < ·)) :
+    ((runs l).any (fun r => r.contains x) = true ↔ x ∈ l) := by
+  cases l with
+  | nil => simp [runs]
+  | cons n rest =>
+    have hs' := List.pairwise_cons.1 hs
+    simp only [runs]
+    rw [runsGo_any x rest n n (Nat.le_refl n) hs'.1 hs'.2]
+    simp only [List.mem_cons]
+    constructor
+    · rintro (h | h)
+      · exact Or.inl (by omega)
+      · exact Or.inr h
+    · rintro (h | h)
+      · exact Or.inl (by omega)
+      · exact Or.inr h
+
+theorem runs_ne_nil (l : List Nat) (h : l ≠ []) : runs l ≠ [] := by
+  cases l with
+  | nil => exact absurd rfl h
+  | cons n rest =>
+    simp only [runs]
+    have : ∀ (rest : List Nat) (f l : Nat), runsGo f l rest ≠ [] := by
+      intro rest
+      induction rest with
+      | nil => intro f l; simp [runsGo]
+      | cons m rest ih => intro f l; simp only [runsGo]; split
+                          · exact ih f m
+                          · simp
+    exact this rest n n
+
+/-- combinePorts: `none` iff no port satisfies both lists; otherwise the result admits exactly the
+ports both lists admit ("" = any port on either side is handled). -/
+theorem combinePorts_sem (a b : List PortRange) (x : Nat) :
+    match combinePorts a b with
+    | some c => portsOK c x = (portsOK a x && portsOK b x)
+    | none => (portsOK a x && portsOK b x) = false := by
+  unfold combinePorts
+  cases hae : a.isEmpty
+  · cases hbe : b.isEmpty
+    · simp only [Bool.false_eq_true, if_false]
+      have hmem : ∀ y, y ∈ (List.range (max (maxPort a) (maxPort b) + 1)).filter (fun x => inPorts a x && inPorts b x) ↔
+          (inPorts a y = true ∧ inPorts b y = true) := by
+        intro y
+        simp only [List.mem_filter, List.mem_range, Bool.and_eq_true]
+        constructor
+        · exact fun h => h.2
+        · intro h
+          have := inPorts_le_max a y h.1
+          exact ⟨by omega, h⟩
+      have hsorted : ((List.range (max (maxPort a) (maxPort b) + 1)).filter (fun x => inPorts a x && inPorts b x)).Pairwise (· < ·) :=
+        List.pairwise_lt_range.filter _
+      cases hse : ((List.range (max (maxPort a) (maxPort b) + 1)).filter (fun x => inPorts a x && inPorts b x)).isEmpty
+      · simp only [Bool.false_eq_true, if_false]
+        have hne : (List.range (max (maxPort a) (maxPort b) + 1)).filter (fun x => inPorts a x && inPorts b x) ≠ [] := by
+          simpa using hse
+        have hre : (runs ((List.range (max (maxPort a) (maxPort b) + 1)).filter (fun x => inPorts a x && inPorts b x))).isEmpty = false := by
+          have := runs_ne_nil _ hne
+          cases hr : runs ((List.range (max (maxPort a) (maxPort b) + 1)).filter (fun x => inPorts a x && inPorts b x)) <;> simp_all
+        simp only [portsOK, hae, hbe, hre, Bool.false_or]
+        rw [Bool.eq_iff_iff, runs_any x _ hsorted, hmem x]
+        simp [inPorts]
+      · simp only [if_true]
+        have hnil : (List.range (max (maxPort a) (maxPort b) + 1)).filter (fun x => inPorts a x && inPorts b x) = [] := by
+          simpa using hse
+        simp only [portsOK, hae, hbe, Bool.false_or]
+        rw [Bool.eq_false_iff]
+        intro hboth
+        have : x ∈ (List.range (max (maxPort a) (maxPort b) + 1)).filter (fun x => inPorts a x && inPorts b x) := by
+          rw [hmem x]; simpa [inPorts] using hboth
+        rw [hnil] at this; simp at this
+    · have : b = [] := by simpa using hbe
+      subst this
+      simp [portsOK]
+  · have : a = [] := by simpa using hae
+    subst this
+    simp [portsOK]
+
 def protoPart (h : HRule) (p : Pkt) : Bool := h.proto == 256 || h.proto == p.proto
 
 theorem matches_eq (h : HRule) (d : Bool) (hd : h.inbound = d) (p : Pkt) :
@@ -70,81 +208,96 @@ theorem matches_eq (h : HRule) (d : Bool) (hd : h.inbound = d) (p : Pkt) :
   subst hd
   cases hi : h.inbound <;> simp [HRule.matches, hi, protoPart]
 
-/-- combineRules of a port-free rule `r1` with `r2`: never panics; the result matches exactly the
-packets both match and keeps `r2`'s action. -/
-theorem combineRules_sem (d : Bool) (r1 r2 : HRule) (h1 : RuleOK d r1) (h2 : RuleOK d r2)
-    (hpf : r1.lPorts = [] ∧ r1.rPorts = []) (p : Pkt) :
+theorem combineProto_sem (p1 p2 q : Nat) :
+    match combineProto p1 p2 with
+    | some pr => (pr == 256 || pr == q) = ((p1 == 256 || p1 == q) && (p2 == 256 || p2 == q))
+    | none => ((p1 == 256 || p1 == q) && (p2 == 256 || p2 == q)) = false := by
+  unfold combineProto
+  by_cases h1 : p1 = 256
+  · simp [h1]
+  · by_cases h2 : p2 = 256
+    · simp [h1, h2]
+    · by_cases he : p1 = p2
+      · simp [h1, he]
+      · have b1 : (p1 == 256) = false := by simpa using h1
+        have b2 : (p2 == 256) = false := by simpa using h2
+        simp only [h1, h2, he, ne_eq, not_false_eq_true, if_true, if_false, b1, b2, Bool.false_or]
+        by_cases hq : p1 = q
+        · have : (p2 == q) = false := by simp only [beq_eq_false_iff_ne, ne_eq]; intro h; exact he (hq.trans h.symm)
+          simp [this]
+        · have : (p1 == q) = false := by simpa using hq
+          simp [this]
+
+/-- combineRules never panics; the result matches exactly the packets both rules match and keeps
+`r2`'s action; "no-op" means no packet matches both. -/
+theorem combineRules_sem (d : Bool) (r1 r2 : HRule) (h1 : RuleOK d r1) (h2 : RuleOK d r2) (p : Pkt) :
     match combineRules r1 r2 with
     | .panic => False
     | .noOp => (r1.matches p && r2.matches p) = false
     | .ok c => c.matches p = (r1.matches p && r2.matches p) ∧ c.action = r2.action ∧ RuleOK d c := by
+  have hP := combineProto_sem r1.proto r2.proto p.proto
   have hL := combineCIDRs_sem r1.lAddrs r2.lAddrs h1.v4l h2.v4l (if d then p.dst else p.src)
   have hR := combineCIDRs_sem r1.rAddrs r2.rAddrs h1.v4r h2.v4r (if d then p.src else p.dst)
+  have hLP := combinePorts_sem r1.lPorts r2.lPorts (if d then p.dport else p.sport)
+  have hRP := combinePorts_sem r1.rPorts r2.rPorts (if d then p.sport else p.dport)
   rw [matches_eq r1 d h1.dir, matches_eq r2 d h2.dir]
   unfold combineRules
-  simp only [hpf.1, hpf.2, combinePorts_nil]
-  -- protocol
-  by_cases hp1 : r1.proto = 256
-  · simp only [hp1, ne_eq, not_true_eq_false, if_false]
+  simp only [protoPart]
+  cases hcp : combineProto r1.proto r2.proto with
+  | none =>
+    rw [hcp] at hP; simp only at hP ⊢
+    revert hP
+    generalize (r1.proto == 256 || r1.proto == p.proto) = a
+    generalize (r2.proto == 256 || r2.proto == p.proto) = b
+    intro hP
+    cases a <;> cases b <;> simp_all
+  | some pr =>
+    rw [hcp] at hP
     cases hcl : combineCIDRs r1.lAddrs r2.lAddrs with
-    | none => rw [hcl] at hL; simp only at hL ⊢; revert hL; cases addrsOK r1.lAddrs (if d then p.dst else p.src) <;> cases addrsOK r2.lAddrs (if d then p.dst else p.src) <;> simp
+    | none =>
+      rw [hcl] at hL; simp only at hL ⊢
+      revert hL
+      generalize addrsOK r1.lAddrs (if d then p.dst else p.src) = a
+      generalize addrsOK r2.lAddrs (if d then p.dst else p.src) = b
+      intro hL
+      cases a <;> cases b <;> simp_all
     | some la =>
       rw [hcl] at hL
       cases hcr : combineCIDRs r1.rAddrs r2.rAddrs with
-      | none => rw [hcr] at hR; simp only at hR ⊢; revert hR; cases addrsOK r1.rAddrs (if d then p.src else p.dst) <;> cases addrsOK r2.rAddrs (if d then p.src else p.dst) <;> simp
+      | none =>
+        rw [hcr] at hR; simp only at hR ⊢
+        revert hR
+        generalize addrsOK r1.rAddrs (if d then p.src else p.dst) = a
+        generalize addrsOK r2.rAddrs (if d then p.src else p.dst) = b
+        intro hR
+        cases a <;> cases b <;> simp_all
       | some ra =>
         rw [hcr] at hR
-        simp only at hL hR ⊢
-        refine ⟨?_, rfl, ⟨h2.dir, hL.2, hR.2, h2.passPortFree⟩⟩
-        rw [matches_eq (mkComb r2 r2.proto la ra r2.lPorts r2.rPorts) d h2.dir]
-        simp only [mkComb, protoPart, hp1, hL.1, hR.1, portsOK, List.isEmpty_nil, Bool.true_or, beq_self_eq_true]
-        cases addrsOK r1.lAddrs (if d then p.dst else p.src) <;> cases addrsOK r1.rAddrs (if d then p.src else p.dst) <;>
-          cases addrsOK r2.lAddrs (if d then p.dst else p.src) <;> simp
-  · simp only [hp1, ne_eq, not_false_eq_true, if_true]
-    by_cases hp2 : r2.proto = 256
-    · simp only [hp2, if_true]
-      cases hcl : combineCIDRs r1.lAddrs r2.lAddrs with
-      | none => rw [hcl] at hL; simp only at hL ⊢; revert hL; cases addrsOK r1.lAddrs (if d then p.dst else p.src) <;> cases addrsOK r2.lAddrs (if d then p.dst else p.src) <;> simp
-      | some la =>
-        rw [hcl] at hL
-        cases hcr : combineCIDRs r1.rAddrs r2.rAddrs with
-        | none => rw [hcr] at hR; simp only at hR ⊢; revert hR; cases addrsOK r1.rAddrs (if d then p.src else p.dst) <;> cases addrsOK r2.rAddrs (if d then p.src else p.dst) <;> simp
-        | some ra =>
-          rw [hcr] at hR
-          simp only at hL hR ⊢
-          refine ⟨?_, rfl, ⟨h2.dir, hL.2, hR.2, h2.passPortFree⟩⟩
-          rw [matches_eq (mkComb r2 r1.proto la ra r2.lPorts r2.rPorts) d h2.dir]
-          simp only [mkComb, protoPart, hp2, hL.1, hR.1, portsOK, List.isEmpty_nil, Bool.true_or, beq_self_eq_true]
-          cases addrsOK r1.lAddrs (if d then p.dst else p.src) <;> cases addrsOK r1.rAddrs (if d then p.src else p.dst) <;>
-            cases addrsOK r2.lAddrs (if d then p.dst else p.src) <;> cases (r1.proto == 256 || r1.proto == p.proto) <;> simp
-    · simp only [hp2, if_false]
-      by_cases hne : r1.proto = r2.proto
-      · simp only [hne, not_true_eq_false, if_false]
-        cases hcl : combineCIDRs r1.lAddrs r2.lAddrs with
-        | none => rw [hcl] at hL; simp only at hL ⊢; revert hL; cases addrsOK r1.lAddrs (if d then p.dst else p.src) <;> cases addrsOK r2.lAddrs (if d then p.dst else p.src) <;> simp
-        | some la =>
-          rw [hcl] at hL
-          cases hcr : combineCIDRs r1.rAddrs r2.rAddrs with
-          | none => rw [hcr] at hR; simp only at hR ⊢; revert hR; cases addrsOK r1.rAddrs (if d then p.src else p.dst) <;> cases addrsOK r2.rAddrs (if d then p.src else p.dst) <;> simp
-          | some ra =>
-            rw [hcr] at hR
-            simp only at hL hR ⊢
-            refine ⟨?_, rfl, ⟨h2.dir, hL.2, hR.2, h2.passPortFree⟩⟩
-            rw [matches_eq (mkComb r2 r2.proto la ra r2.lPorts r2.rPorts) d h2.dir]
-            simp only [mkComb, protoPart, hne, hL.1, hR.1, portsOK, List.isEmpty_nil, Bool.true_or]
-            cases addrsOK r1.lAddrs (if d then p.dst else p.src) <;> cases addrsOK r1.rAddrs (if d then p.src else p.dst) <;>
-              cases addrsOK r2.lAddrs (if d then p.dst else p.src) <;> cases (r2.proto == 256 || r2.proto == p.proto) <;> simp
-      · simp only [hne, not_false_eq_true, if_true]
-        have hb1 : (r1.proto == 256) = false := by simpa using hp1
-        have hb2 : (r2.proto == 256) = false := by simpa using hp2
-        simp only [protoPart, hb1, hb2, Bool.false_or]
-        by_cases he1 : r1.proto = p.proto
-        · have : (r2.proto == p.proto) = false := by
-            simp only [beq_eq_false_iff_ne, ne_eq]; intro h; exact hne (he1.trans h.symm)
-          simp [this]
-        · have : (r1.proto == p.proto) = false := by simpa using he1
-          simp [this]
-
+        cases hlp : combinePorts r1.lPorts r2.lPorts with
+        | none =>
+          rw [hlp] at hLP; simp only at hLP ⊢
+          revert hLP
+          generalize portsOK r1.lPorts (if d then p.dport else p.sport) = a
+          generalize portsOK r2.lPorts (if d then p.dport else p.sport) = b
+          intro hLP
+          cases a <;> cases b <;> simp_all
+        | some lp =>
+          rw [hlp] at hLP
+          cases hrp : combinePorts r1.rPorts r2.rPorts with
+          | none =>
+            rw [hrp] at hRP; simp only at hRP ⊢
+            revert hRP
+            generalize portsOK r1.rPorts (if d then p.sport else p.dport) = a
+            generalize portsOK r2.rPorts (if d then p.sport else p.dport) = b
+            intro hRP
+            cases a <;> cases b <;> simp_all
+          | some rp =>
+            rw [hrp] at hRP
+            simp only at hP hL hR hLP hRP ⊢
+            refine ⟨?_, rfl, ⟨h2.dir, hL.2, hR.2⟩⟩
+            rw [matches_eq (mkComb r2 pr la ra lp rp) d h2.dir]
+            simp only [mkComb, protoPart, hP, hL.1, hR.1, hLP, hRP]
+            simp only [Bool.and_assoc, Bool.and_comm, Bool.and_left_comm]
 
 theorem firstAction_cons (h : HRule) (t : List HRule) (p : Pkt) :
     firstAction (h :: t) p = if h.matches p then some h.action else firstAction t p := by
@@ -152,8 +305,8 @@ theorem firstAction_cons (h : HRule) (t : List HRule) (p : Pkt) :
   simp only [List.find?_cons]
   cases h.matches p <;> simp
 
-/-- appendCombinedRules for one port-free pass rule. -/
-theorem combineWithTier_sem (d : Bool) (r : HRule) (hr : RuleOK d r) (hpf : r.lPorts = [] ∧ r.rPorts = [])
+/-- appendCombinedRules for one pass rule. -/
+theorem combineWithTier_sem (d : Bool) (r : HRule) (hr : RuleOK d r)
     (second : List HRule) (hs : TierOK d second) :
     ∃ cs, combineWithTier r second = some cs ∧ TierOK d cs ∧
       ∀ p, firstAction cs p = if r.matches p then firstAction second p else none := by
@@ -164,13 +317,13 @@ theorem combineWithTier_sem (d : Bool) (r : HRule) (hr : RuleOK d r) (hpf : r.lP
     have hx := hs x (by simp)
     cases hc : combineRules r x with
     | panic =>
-      have := combineRules_sem d r x hr hx hpf ⟨0, 0, 0, 0, 0⟩
+      have := combineRules_sem d r x hr hx ⟨0, 0, 0, 0, 0⟩
       rw [hc] at this
       exact this.elim
     | noOp =>
       refine ⟨cs, by simp [combineWithTier, hc, hcs], hok, ?_⟩
       intro p
-      have := combineRules_sem d r x hr hx hpf p
+      have := combineRules_sem d r x hr hx p
       rw [hc] at this
       simp only at this
       rw [hfa p, firstAction_cons]
@@ -183,12 +336,12 @@ theorem combineWithTier_sem (d : Bool) (r : HRule) (hr : RuleOK d r) (hpf : r.lP
       · intro h hh
         simp only [List.mem_cons] at hh
         rcases hh with rfl | hh
-        · have := combineRules_sem d r x hr hx hpf ⟨0, 0, 0, 0, 0⟩
+        · have := combineRules_sem d r x hr hx ⟨0, 0, 0, 0, 0⟩
           rw [hc] at this
           exact this.2.2
         · exact hok h hh
       · intro p
-        have := combineRules_sem d r x hr hx hpf p
+        have := combineRules_sem d r x hr hx p
         rw [hc] at this
         simp only at this
         rw [firstAction_cons, firstAction_cons, hfa p, this.1, this.2.1]
@@ -211,7 +364,7 @@ theorem buildFirst_sem (d : Bool) (second : List HRule) (hs : TierOK d second) (
     obtain ⟨nf, hnf, hok, hfa⟩ := ih (fun h hh => hf h (by simp [hh]))
     have hr := hf r (by simp)
     by_cases hp : r.action = .pass
-    · obtain ⟨cs, hcs, hcok, hcfa⟩ := combineWithTier_sem d r hr (hr.passPortFree hp) second hs
+    · obtain ⟨cs, hcs, hcok, hcfa⟩ := combineWithTier_sem d r hr second hs
       refine ⟨cs ++ nf, by simp [buildFirst, hp, hcs, hnf], ?_, ?_⟩
       · intro h hh
         rcases List.mem_append.1 hh with hh | hh
@@ -255,7 +408,7 @@ theorem firstAction_pass_mem (t : List HRule) (p : Pkt) (h : firstAction t p = s
     simp only [hf, Option.map_some, Option.some.injEq] at h
     exact List.any_eq_true.2 ⟨x, List.mem_of_find?_eq_some hf, by simp [h]⟩
 
-/-- flattenTiersRecurse: never panics on port-free pass rules and its result, read first-match,
+/-- flattenTiersRecurse: never panics and its result, read first-match,
 evaluates the tiers in order. -/
 theorem flattenRec_sem (d : Bool) (rest : List (List HRule)) (hrest : ∀ t ∈ rest, TierOK d t ∧ Total t) :
     ∀ first, TierOK d first →
@@ -358,7 +511,7 @@ theorem firstAction_passToBlock (t : List HRule) (p : Pkt) :
 theorem ruleOK_passToBlock (d : Bool) (h : HRule) (hh : RuleOK d h) : RuleOK d (passToBlock h) := by
   unfold passToBlock
   split
-  · exact ⟨hh.dir, hh.v4l, hh.v4r, by intro hc; simp at hc⟩
+  · exact ⟨hh.dir, hh.v4l, hh.v4r⟩
   · exact hh
 
 theorem cascade_mapLast (p : Pkt) : ∀ (first : List HRule) (rest : List (List HRule)),
@@ -407,7 +560,7 @@ theorem mapLast_props (d : Bool) : ∀ (tiers : List (List HRule)), (∀ t ∈ t
       · exact h _ (by simp)
       · exact ih (fun x hx => h x (by simp [hx])) t (by simpa [mapLast] using ht)
 
-/-- flattenTiers on tiers whose pass rules carry no port criteria: no panic, and the flattened
+/-- flattenTiers: no panic, and the flattened
 list read first-match evaluates the tiers in order. -/
 theorem flattenTiers_sem (d : Bool) (tiers : List (List HRule)) (hne : tiers ≠ [])
     (h : ∀ t ∈ tiers, TierOK d t ∧ Total t) :
